@@ -110,6 +110,20 @@ type Cmd struct {
 	Sort        []SortKey `json:"sort,omitempty"`
 	Aggs        []Agg     `json:"aggs,omitempty"`
 	Groups      []string  `json:"groups,omitempty"` // rex: named groups created
+	// head with a boolean expression (Expr != nil): `head <expr> [limit=N] [null=…] [keeplast=…]`
+	// (HasN: the limit option is given). Plain head: OptFirst renders `head limit=N`.
+	Null     string `json:"null,omitempty"`     // "", "true", "false"
+	KeepLast string `json:"keeplast,omitempty"` // "", "true", "false"
+	OptFirst bool   `json:"optfirst,omitempty"` // options before the expression
+	// bin without a span (Span == 0) is a two-pass command: `bin [bins=N] [minspan=M] f [as x]`
+	MinSpan float64 `json:"minspan,omitempty"`
+	// streamstats reset options
+	ResetOnChange bool  `json:"resetOnChange,omitempty"`
+	ResetBefore   *Expr `json:"resetBefore,omitempty"`
+	ResetAfter    *Expr `json:"resetAfter,omitempty"`
+	// fillnull without a field list: the columns the generator knows to be live at that point (used
+	// end to end for the one-pass formulation `fillnull value=V <all columns>`)
+	All []string `json:"all,omitempty"`
 }
 
 func (c *Cmd) Text() string {
@@ -135,6 +149,26 @@ func (c *Cmd) Text() string {
 		}
 		return s
 	case "head", "tail":
+		if c.Op == "head" && c.Expr != nil {
+			var opts []string
+			if c.HasN {
+				opts = append(opts, "limit="+strconv.Itoa(c.N))
+			}
+			if c.Null != "" {
+				opts = append(opts, "null="+c.Null)
+			}
+			if c.KeepLast != "" {
+				opts = append(opts, "keeplast="+c.KeepLast)
+			}
+			parts := append([]string{c.Expr.Text()}, opts...)
+			if c.OptFirst {
+				parts = append(opts, c.Expr.Text())
+			}
+			return "head " + strings.Join(parts, " ")
+		}
+		if c.Op == "head" && c.OptFirst {
+			return "head limit=" + strconv.Itoa(c.N)
+		}
 		return c.Op + " " + strconv.Itoa(c.N)
 	case "sort":
 		s := "sort "
@@ -176,6 +210,16 @@ func (c *Cmd) Text() string {
 		return "rex field=" + c.Field + ` "` + c.Str + `"`
 	case "bin":
 		s := "bin span=" + fmtNum(c.Span) + " " + c.Field
+		if c.Span == 0 {
+			s = "bin "
+			if c.HasN {
+				s += "bins=" + strconv.Itoa(c.N) + " "
+			}
+			if c.MinSpan > 0 {
+				s += "minspan=" + fmtNum(c.MinSpan) + " "
+			}
+			s += c.Field
+		}
 		if c.To != "" {
 			s += " as " + c.To
 		}
@@ -200,6 +244,15 @@ func (c *Cmd) Text() string {
 		}
 		if c.Global != "" {
 			s += " global=" + c.Global
+		}
+		if c.ResetOnChange {
+			s += " reset_on_change=true"
+		}
+		if c.ResetBefore != nil {
+			s += " reset_before=(" + c.ResetBefore.Text() + ")"
+		}
+		if c.ResetAfter != nil {
+			s += " reset_after=(" + c.ResetAfter.Text() + ")"
 		}
 		as := make([]string, len(c.Aggs))
 		for i, a := range c.Aggs {
@@ -242,8 +295,29 @@ func (c *Cmd) stateful() bool {
 	switch c.Op {
 	case "dedup", "head", "tail", "sort", "streamstats", "top", "rare", "stats":
 		return true
+	case "fillnull", "bin":
+		return c.twoPass()
+	}
+	return false
+}
+
+// twoPass reports whether the command reads its input twice (DataProcessor.isTwoPassCmd): fillnull
+// without a field list (first pass: learn the columns) and bin without a span (first pass: min/max).
+func (c *Cmd) twoPass() bool {
+	switch c.Op {
 	case "fillnull":
-		return len(c.Fields) == 0 // two-pass
+		return len(c.Fields) == 0
+	case "bin":
+		return c.Span == 0
+	}
+	return false
+}
+
+// bottleneck: the commands named by the known finding C06-twopass-after-bottleneck.
+func (c *Cmd) bottleneck() bool {
+	switch c.Op {
+	case "sort", "stats", "top", "rare", "tail":
+		return true
 	}
 	return false
 }
@@ -263,6 +337,19 @@ type gstate struct {
 	nextID  int
 	hasMV   bool
 	l1      bool // generating for the processor-level layer
+	// afterBottleneck: a sort/stats/top/rare/tail has been generated. A two-pass command behind one is
+	// the known finding C06-twopass-after-bottleneck (stated for fillnull; `sort … | bin f` without a
+	// span loses rows under parallel chains in the same way), so bin without a span is not placed there.
+	afterBottleneck bool
+	nrows           int
+}
+
+func (g *gstate) names() []string {
+	out := make([]string, len(g.fields))
+	for i, f := range g.fields {
+		out[i] = f.name
+	}
+	return out
 }
 
 func (g *gstate) has(name string) bool {
@@ -436,7 +523,10 @@ var cmdMenu = []string{
 }
 
 func genCmd(t *rapid.T, g *gstate, first, last bool, nrows int) []*Cmd {
-	op := rapid.SampledFrom(cmdMenu).Draw(t, "op")
+	return genCmdOp(t, g, rapid.SampledFrom(cmdMenu).Draw(t, "op"), first, last, nrows)
+}
+
+func genCmdOp(t *rapid.T, g *gstate, op string, first, last bool, nrows int) []*Cmd {
 	nums := g.ofKinds(kNum, kNumNull, kUniq)
 	strs := g.ofKinds(kStr, kStrNull)
 	switch op {
@@ -546,15 +636,26 @@ func genCmd(t *rapid.T, g *gstate, first, last bool, nrows int) []*Cmd {
 			}
 			return []*Cmd{{Op: "fillnull", Str: val, Fields: fs}}
 		}
+		all := g.names()
 		for _, f := range nullable {
 			g.set(f, fillKind(g.kindOf(f)))
 		}
-		return []*Cmd{{Op: "fillnull", Str: val}}
+		return []*Cmd{{Op: "fillnull", Str: val, All: all}}
 	case "head", "tail":
 		if !g.ordered {
 			return nil
 		}
-		return []*Cmd{{Op: op, N: rapid.IntRange(0, nrows+2).Draw(t, "n"), HasN: true}}
+		if op == "head" && rapid.IntRange(0, 2).Draw(t, "headExpr") == 0 {
+			return []*Cmd{genHeadExpr(t, g, nrows)}
+		}
+		if op == "tail" {
+			g.afterBottleneck = true
+		}
+		c := &Cmd{Op: op, N: rapid.IntRange(0, nrows+2).Draw(t, "n"), HasN: true}
+		if op == "head" && rapid.IntRange(0, 5).Draw(t, "limitKw") == 0 {
+			c.OptFirst = true // `head limit=N`
+		}
+		return []*Cmd{c}
 	case "sort":
 		cand := g.ofKinds(kNum, kNumNull, kStr, kStrNull, kWild, kUniq, kTime)
 		if len(cand) == 0 {
@@ -585,6 +686,7 @@ func genCmd(t *rapid.T, g *gstate, first, last bool, nrows int) []*Cmd {
 			c.HasN, c.N = true, rapid.IntRange(1, nrows+1).Draw(t, "n")
 		}
 		g.ordered = total
+		g.afterBottleneck = true
 		return []*Cmd{c}
 	case "dedup":
 		if !g.ordered {
@@ -656,6 +758,9 @@ func genCmd(t *rapid.T, g *gstate, first, last bool, nrows int) []*Cmd {
 		}
 		f := pick(t, nums, "binField")
 		c := &Cmd{Op: "bin", Field: f, Span: float64(rapid.SampledFrom([]int{2, 5, 10}).Draw(t, "span"))}
+		if !g.afterBottleneck && rapid.IntRange(0, 3).Draw(t, "binNoSpan") == 0 {
+			genBinNoSpan(t, c)
+		}
 		if g.kindOf(f) == kUniq || rapid.Bool().Draw(t, "binAs") {
 			c.To = g.fresh("b")
 			g.set(c.To, kStrNull)
@@ -695,6 +800,7 @@ func genCmd(t *rapid.T, g *gstate, first, last bool, nrows int) []*Cmd {
 		g.fields = append(nf, gfield{"count", kNum})
 		g.uniq = append(append([]string(nil), c.By...), c.Fields...)
 		g.ordered = false
+		g.afterBottleneck = true
 		return []*Cmd{c}
 	case "streamstats":
 		if !g.ordered || len(nums) == 0 {
@@ -725,6 +831,9 @@ func genCmd(t *rapid.T, g *gstate, first, last bool, nrows int) []*Cmd {
 			if c.HasN {
 				c.Global = rapid.SampledFrom([]string{"", "false", "false", "true"}).Draw(t, "global")
 			}
+		}
+		if rapid.IntRange(0, 3).Draw(t, "ssReset") == 0 {
+			genStreamstatsReset(t, g, c)
 		}
 		for _, a := range c.Aggs {
 			g.set(a.As, kWild)
@@ -802,6 +911,7 @@ func genCmd(t *rapid.T, g *gstate, first, last bool, nrows int) []*Cmd {
 		g.fields = nf
 		g.uniq = append([]string(nil), c.By...)
 		g.ordered = len(c.By) == 0 // a single row
+		g.afterBottleneck = true
 		return []*Cmd{c}
 	}
 	return nil
